@@ -111,7 +111,9 @@ def gen_case(rng, reserved=False):
     for k in range(3):
         new = []
         for nm in hot:
-            if rng.random() < 0.4:
+            # (a body writing a file called _result.pklz into its own job directory is overwritten by the
+            # node's own result; that is not about collecting workflow outputs -> reserved names only pre-made)
+            if rng.random() < 0.4 and nm not in RESERVED:
                 kind = "D" if nm in ("sub", "res.d") else "F"
                 new.append({"id": f"n{k}_{len(new)}", "kind": kind, "rel": nm})
         news.append(new)
@@ -252,14 +254,14 @@ def case_batch(case, wctx):
 def run(ctx):
     quick = ctx.tier == "quick"
     rng = ctx.rng("gen")
-    n = 150 if quick else 4000
+    n = 150 if quick else 3000
     cases = [gen_case(rng, reserved=(i % 25 == 7)) for i in range(n)]
     per = 10 if quick else 40
     ctx.rule = ("generated workflows of 3 nodes returning nested list/tuple/dict values (depth <= 3) of File/Directory "
                 "objects over 2-4 source directories + node-made files with 2-3 shared base names; non-trivial = at least "
                 "one base name used by >= 2 distinct sources among the outputs; distinct = distinct generated case")
     res = ctx.pmap("vp.props.c33:case_batch", [{"cases": cases[i:i + per]} for i in range(0, n, per)],
-                   nproc=8 if quick else 16, timeout=300 if quick else 1500)
+                   nproc=8 if quick else 16, timeout=900 if quick else 3300)
     ctx.record_all(res)
     ctx.assumptions = ["sources, cache and job directories are on one tmpfs (hard links possible); "
                        "source identity is established by unique content"]
